@@ -88,7 +88,7 @@ func (ex *Exec) stmt(st *State, s ast.Stmt, c *ctl, k func(*State)) {
 		if _, isBlock := s.(*ast.BlockStmt); !isBlock {
 			text := normalizeStmtText(nodeString(ex.fset, s))
 			for i, g := range ex.fc.GhostUpd {
-				if !strings.HasPrefix(text, normalizeStmtText(g.Anchor)) {
+				if !strings.HasPrefix(text, normalizeStmtText(g.Anchor)) || (g.Nth > 0 && ex.nthMatch(g.Anchor, g.Nth) != s.Pos()) {
 					continue
 				}
 				ex.ghostUpdHit[i] = true
@@ -1285,8 +1285,7 @@ func (ex *Exec) deferStmt(st *State, s *ast.DeferStmt, k func(*State)) {
 	if lit, ok := unparen(call.Fun).(*ast.FuncLit); ok && len(call.Args) == 0 {
 		clo := &Closure{Lit: lit, Pkg: ex.pkg}
 		if ord, ok := ex.cloOrd[lit]; ok && ex.fc != nil {
-			if ls := ex.fc.Closures[ord]; ls != nil && len(ls.Ensures) > 0 && !ex.cloVerified[lit] {
-				ex.cloVerified[lit] = true
+			if ls := ex.fc.Closures[ord]; ls != nil && len(ls.Ensures) > 0 && ex.closureContextIsNew(st, lit) {
 				ex.cloHit[ord] = true
 				ex.verifyClosure(st.clone(), clo, ord, ls)
 			}
